@@ -498,6 +498,8 @@ CONCAT_OPS = [
     ('export', ['treeanalysis', '{src}', 'GapDegree'], 'gapreport', None),
     ('export', ['treeanalysis', '{src}', 'SentenceCount'], 'count', None),
     ('export-gzcat', _api_two_gz_readers, 'export', 'dest'),
+    ('discobrackets-crlf', ['transform', '{src}', '{dest}', '--src-format', 'discobrackets', '--dest-format', 'discobrackets'],
+     'discobrackets', 'dest'),       # CRLF line ends in the source
 ]
 
 
@@ -534,9 +536,10 @@ def _run_concat(cli, wd, fmt, argv, mts, out_name):
         with open(src, 'wb') as f:
             for m in mts:
                 f.write(_gzip.compress(codecs.encode_export([m]).encode('utf-8')))
-    elif fmt == 'discobrackets':
-        with open(src, 'w', encoding='utf-8') as f:
-            f.write(codecs.encode_discobrackets(mts))
+    elif fmt in ('discobrackets', 'discobrackets-crlf'):
+        with open(src, 'w', encoding='utf-8', newline='') as f:
+            text = codecs.encode_discobrackets(mts)
+            f.write(text.replace('\n', '\r\n') if fmt.endswith('crlf') else text)
     elif fmt == 'tigerxml0':
         with open(src, 'w', encoding='utf-8') as f:
             f.write(codecs.encode_tigerxml([model.MT(m.sid - 1, m.toks, m.root) for m in mts]))
